@@ -107,9 +107,7 @@ theorem slice_inclusive {ls : List α} {ix : Index α} (h : Index.mk? ls = .ok i
       · have hb : b ∉ ls := by rcases hab with h | h; exact absurd ha h; exact h
         obtain ⟨i, hi⟩ := List.mem_iff_getElem?.mp ha
         rw [AMap.get?_zipIdx_some 0 hn hi, AMap.get?_zipIdx_none 0 hb]
-        simp [Except.map]
       · rw [AMap.get?_zipIdx_none 0 ha]
-        simp [Except.map]
   · rw [if_neg hn] at h; cases h
 
 /-- Grow-only histories: for EVERY list of append/extend calls on a well-formed IndexGO (mapped or
@@ -168,12 +166,12 @@ theorem fromLabels_rejects (ts : List (List α)) (h : ¬ ts.Nodup ∨ ¬ Level.T
     · exact absurd (ht ▸ Level.tuples_treeOrdered t d hw) h
 
 /-- `leaf_loc_to_iloc`: in a well-formed tree the lookup of a tuple returns i exactly when the
-    i-th tuple is that tuple (offset arithmetic); membership ⇔ held for full-depth keys. -/
+    i-th tuple is that tuple (offset arithmetic); membership (`__contains__` with its depth check) ⇔ held, for every key. -/
 theorem leaf_bijection {t : Level α} {d : Nat} (h : Level.WF d t) :
     (∀ key i, t.leafLocToIloc key = .ok i ↔ t.tuples[i]? = some key) ∧
-    (∀ key, key.length = d → (t.contains key = true ↔ key ∈ t.tuples)) ∧
+    (∀ key, t.containsKey d key = true ↔ key ∈ t.tuples) ∧
     t.len = t.tuples.length := by
-  refine ⟨?_, Level.contains_spec t d h, (Level.tuples_length t d h).symm⟩
+  refine ⟨?_, Level.containsKey_spec h, (Level.tuples_length t d h).symm⟩
   intro key i
   unfold Level.leafLocToIloc
   rw [Level.leafLoc_spec t d h key 0 i]
@@ -181,20 +179,35 @@ theorem leaf_bijection {t : Level α} {d : Nat} (h : Level.WF d t) :
   · rintro ⟨j, hj, ht⟩; simp only [Nat.zero_add] at hj; subst hj; exact ht
   · intro ht; exact ⟨i, by simp, ht⟩
 
-/-- `IndexLevelGO.append` AS CODED does not store the key it is given: the descent follows the last
-    target at every depth without comparing the key's prefix (finding F11). -/
-theorem append_counterexample :
-    ((Level.node [0, 1] [.leaf [1] 0, .leaf [1] 1] 0 : Level Int).append 2 [0, 2]).map Level.tuples
+/-- PINNED-TREE BEHAVIOUR (finding F11, repaired in /repo commit c43fc4c): `IndexLevelGO.append`
+    did not store the key it was given — the descent followed the last target at every depth
+    without comparing the key's prefix. -/
+theorem appendPinned_counterexample :
+    ((Level.node [0, 1] [.leaf [1] 0, .leaf [1] 1] 0 : Level Int).appendPinned 2 [0, 2]).map Level.tuples
       = .ok [[0, 1], [1, 1], [1, 2]] := by decide
 
-/-- Every history of grow-only calls on the level tree — appends whose prefix is the right-most
-    path where it exists (the guard repairing F11), extends by well-formed levels with new outer
-    labels — keeps the tree well formed and adds exactly the accepted tuples, in order; an append
-    of a held tuple changes nothing. -/
+/-- The repaired append refuses that key and stores a key continuing the right-most path. -/
+theorem append_repaired_example :
+    ((Level.node [0, 1] [.leaf [1] 0, .leaf [1] 1] 0 : Level Int).append 2 [0, 2]).map Level.tuples
+      = .error .shape ∧
+    ((Level.node [0, 1] [.leaf [1] 0, .leaf [1] 1] 0 : Level Int).append 2 [1, 2]).map Level.tuples
+      = .ok [[0, 1], [1, 1], [1, 2]] := by decide
+
+/-- `IndexLevelGO.append` (as repaired): a successful call stores exactly the key it is given at the
+    end and keeps the tree well formed; it succeeds iff the key has full depth, is not held and
+    continues the right-most path (`Level.accepts`); otherwise it raises and nothing changes. -/
+theorem append_exact {t : Level α} {d : Nat} (hd : 1 ≤ d) (h : Level.WF d t) (key : List α) :
+    (∀ t', t.append d key = .ok t' → Level.WF d t' ∧ t'.tuples = t.tuples ++ [key] ∧ key ∉ t.tuples) ∧
+    ((∃ t', t.append d key = .ok t') ↔ Level.accepts t d key = true) :=
+  ⟨fun t' ha => let r := Level.append_spec hd h ha; ⟨r.2.1, r.2.2.1, r.2.2.2.1⟩, Level.append_ok_iff hd h key⟩
+
+/-- Every history of grow-only calls on the level tree — EVERY append (any key: accepted ones add
+    exactly the key, rejected ones change nothing), extends by well-formed levels with new outer
+    labels — keeps the tree well formed and adds exactly the accepted tuples, in order. -/
 theorem levelGO_history {t : Level α} {d : Nat} (hd : 2 ≤ d) (h : Level.WF d t)
     (ops : List (LOp α)) (ha : Level.Admissible d t ops) :
     Level.WF d (t.runGO d ops) ∧
-    (t.runGO d ops).tuples = t.tuples ++ Level.addedAll t.tuples ops ∧
+    (t.runGO d ops).tuples = t.tuples ++ Level.addedAll t d ops ∧
     (t.runGO d ops).tuples.Nodup :=
   let r := Level.runGO_spec hd ops t h ha
   ⟨r.1, r.2, Level.tuples_nodup _ d r.1⟩
@@ -204,14 +217,6 @@ theorem levelGO_history {t : Level α} {d : Nat} (hd : 2 ≤ d) (h : Level.WF d 
 theorem levelGO_extend_rejected {t : Level α} {d : Nat} (hd : 2 ≤ d) (h : Level.WF d t) (other : Level α)
     (e : Err) (hr : (t.extend other).2 = some e) : (t.extend other).1 = t :=
   Level.extend_rejected_unchanged h hd other e hr
-
-/-- As coded (no guard) every successful append still yields a well-formed tree with exactly one
-    more tuple at the end. -/
-theorem append_wf {t : Level α} {d : Nat} {key : List α} {t' : Level α} (h : Level.WF d t)
-    (hne : t.labels ≠ []) (ha : t.append d key = .ok t') :
-    Level.WF d t' ∧ ∃ stored, t'.tuples = t.tuples ++ [stored] ∧ (Level.appendOk t key = true → stored = key) :=
-  let r := Level.append_spec h ha hne
-  ⟨r.2.1, r.2.2.2.2⟩
 
 /-! ### non-vacuity -/
 
